@@ -235,15 +235,40 @@ def known_findings():
         return json.load(f)
 
 
+def _shrinking_tail(rejection):
+    """D10: the rejected observation follows an append round whose re-emitted directory + end
+    records end before the end of the base archive (stale tail incl. the old end record survives)"""
+    seg = rejection.get("segment") or []
+    k = rejection.get("index_in_segment", 0)
+    evn = (seg[k].get("ev") if k < len(seg) else None)
+    if evn not in ("Layout", "Open", "Entry", "NewAppend"):
+        return False
+    base_len = None
+    shrunk = False
+    for e in seg[:k]:
+        if e.get("ev") == "NewAppend" and e.get("r") == "ok":
+            base_len = e.get("len")
+            shrunk = False
+        elif e.get("ev") in ("Finish", "Drop") and base_len is not None:
+            if e.get("r") == "ok" and e.get("pos", 0) < base_len and e.get("len", 0) >= base_len:
+                shrunk = True
+            base_len = None
+        elif e.get("ev") == "New":
+            base_len = None
+    return shrunk
+
+
+PREDICATES = {"shrinking_tail": _shrinking_tail}
+
+
 def finding_for(pid, rejection, scenario):
-    """a rejection is a known finding iff a listed finding of this property names a tag that the
-    rejected scenario carries AND the rejected event's name matches the finding's `event` (if given)"""
-    tags = set((scenario or {}).get("tags", []))
-    evname = (rejection.get("event") or {}).get("ev")
+    """a rejection is a known finding iff a listed finding of this property has a predicate that
+    holds of the rejected segment (the specific history that fails)"""
     for f in known_findings().get("findings", []):
         if f.get("property") != pid:
             continue
-        if f.get("tag") in tags and (not f.get("event") or f.get("event") == evname):
+        p = PREDICATES.get(f.get("predicate"))
+        if p and p(rejection):
             return f
     return None
 
